@@ -311,7 +311,7 @@ def machine_shard(arg):
 
 
 def run(ctx):
-    ctx.map(machine_shard, [(s, ctx.pick(60, 800), ctx.pick(20, 40)) for s in ctx.shard_seeds(16)])
+    ctx.map(machine_shard, [(s, ctx.pick(120, 800), ctx.pick(20, 40)) for s in ctx.shard_seeds(16)])
 
 
 def replay(subcheck, case):
